@@ -555,13 +555,13 @@ fn merges(a: &[COp], b: &[COp]) -> Vec<Vec<(u8, COp)>> {
 /// the small programs of the exhaustive part: k sends against m (receive, release) pairs,
 /// every merge order as reference interleaving, wait flags none / all / receiver only /
 /// sender only (duplicates of derived programs removed)
-fn small_scripts(k: usize, m: usize) -> Vec<Vec<Entry>> {
+fn small_scripts(k: usize, m: usize, modes: &[u8]) -> Vec<Vec<Entry>> {
     let a: Vec<COp> = (0..k).map(|_| COp::Send(0)).collect();
     let b: Vec<COp> = (0..m).flat_map(|_| [COp::Recv(0), COp::Release(0, 0)]).collect();
     let mut seen = std::collections::BTreeSet::new();
     let mut out = vec![];
     for mg in merges(&a, &b) {
-        for mode in 0..4u8 {
+        for mode in modes.iter().copied() {
             let script: Vec<Entry> = mg
                 .iter()
                 .map(|(t, op)| Entry { t: *t, op: *op, wait: match mode { 0 => false, 1 => true, 2 => *t == 1, _ => *t == 0 } })
@@ -612,21 +612,27 @@ pub fn conn_parts(ctx: &mut Ctx) {
         let mut i = 0u64;
         let mut ok = true;
         // (k, m, full parameter grid?)
-        let shapes: Vec<(usize, usize, bool)> = if ctx.quick() {
-            vec![(1, 1, true), (2, 1, true), (1, 2, true), (2, 2, true), (3, 2, false), (3, 3, false)]
+        // (k, m, parameter grid: 2 = full, 3 = four of the eight combinations, 1 = buffer 1 / max-borrow 1 with and without overflow,
+        // 0 = buffer 1 / max-borrow 1 without overflow; wait-flag modes)
+        let shapes: Vec<(usize, usize, u8, &[u8])> = if ctx.quick() {
+            vec![(1, 1, 2, &[0, 1, 2, 3]), (2, 1, 2, &[0, 1, 2, 3]), (1, 2, 2, &[0, 1, 2, 3]), (2, 2, 3, &[0, 1, 2, 3]), (3, 3, 0, &[0, 2])]
         } else {
-            vec![(1, 1, true), (2, 1, true), (1, 2, true), (2, 2, true), (3, 2, false), (2, 3, false), (3, 3, false)]
+            vec![(1, 1, 2, &[0, 1, 2, 3]), (2, 1, 2, &[0, 1, 2, 3]), (1, 2, 2, &[0, 1, 2, 3]), (2, 2, 2, &[0, 1, 2, 3]), (3, 2, 1, &[0, 1, 2, 3]), (2, 3, 1, &[0, 1, 2, 3]), (3, 3, 1, &[0, 1, 2, 3])]
         };
-        'outer: for (k, m, grid) in shapes {
-            let params: Vec<(u8, u8, bool)> = if grid {
-                vec![(1, 1, false), (1, 1, true), (2, 1, false), (2, 1, true), (1, 2, false), (1, 2, true), (2, 2, false), (2, 2, true)]
-            } else {
-                vec![(1, 1, false), (1, 1, true)]
+        let count_only = std::env::var("C03_CONN_COUNT").is_ok();
+        let mut counts: Vec<(usize, usize, u64, u64)> = vec![];
+        'outer: for (k, m, grid, modes) in shapes {
+            let params: Vec<(u8, u8, bool)> = match grid {
+                2 => vec![(1, 1, false), (1, 1, true), (2, 1, false), (2, 1, true), (1, 2, false), (1, 2, true), (2, 2, false), (2, 2, true)],
+                1 => vec![(1, 1, false), (1, 1, true)],
+                3 => vec![(1, 1, false), (1, 1, true), (2, 1, false), (1, 2, true)],
+                _ => vec![(1, 1, false)],
             };
-            for script in small_scripts(k, m) {
+            counts.push((k, m, 0, 0));
+            for script in small_scripts(k, m, modes) {
                 for (buffer, borrow, overflow) in &params {
                     i += 1;
-                    if !ctx.mine(i) {
+                    if !ctx.mine(i) && !count_only {
                         continue;
                     }
                     let base = CCase { buffer: *buffer, borrow: *borrow, overflow: *overflow, channels: 1, segments: 1, script: script.clone(), final_reclaim: vcore::rng::mix(i, 77) & 1 == 0, sched: Schedule::default() };
@@ -639,6 +645,13 @@ pub fn conn_parts(ctx: &mut Ctx) {
                     };
                     // thorough: three preemptions only for the programs with at most 45 yield points
                     let b = if bound == 3 && y > 45 { 2 } else { bound };
+                    if count_only {
+                        let n = (y + 2) as u64;
+                        let c = counts.last_mut().unwrap();
+                        c.2 += 1;
+                        c.3 += 1 + n + n * (n - 1) / 2 + if b == 3 { n * (n - 1) * (n - 2) / 6 } else { 0 };
+                        continue;
+                    }
                     for l in sched::enumerate_preemptions(y + 2, 1, b) {
                         let c = CCase { sched: Schedule { preempt: l.iter().map(|(a, _)| (*a, OTHER as u8)).collect(), ..Default::default() }, ..base.clone() };
                         if !exec_ccase(ctx, "conn.exhaustive", &c) {
@@ -649,15 +662,19 @@ pub fn conn_parts(ctx: &mut Ctx) {
                 }
             }
         }
+        if count_only {
+            eprintln!("conn.exhaustive (k, m, programs, schedules): {counts:?}");
+            return;
+        }
         if ok {
-            ctx.mark_exhaustive(format!("conn.exhaustive: all preemption lists with <= {bound} preemptions (3 only below 46 yield points) for k sends against m receive/release pairs, k,m <= 2 over buffer 1..2 x max-borrow 1..2 x overflow on/off and k<=3,m<=3 for buffer 1, max-borrow 1; every merge order as reference interleaving with wait flags none/all/receiver/sender"));
+            ctx.mark_exhaustive(format!("conn.exhaustive: all preemption lists with <= {bound} preemptions (3 only below 46 yield points) for k sends against m receive/release pairs: k,m <= 2 over buffer 1..2 x max-borrow 1..2 x overflow on/off{}, every merge order as reference interleaving with wait flags none/all/receiver/sender; {}", if bound == 2 { " (k = m = 2: four of the eight combinations)" } else { "" }, if bound == 2 { "k = m = 3 for buffer 1, max-borrow 1, no overflow with wait flags none/receiver" } else { "(3,2), (2,3), (3,3) for buffer 1, max-borrow 1 with all four wait-flag modes" }));
         }
     }
     for (part, weak) in [("conn.random", false), ("conn.weak", true)] {
         if !ctx.part_enabled(part) {
             continue;
         }
-        let total = if weak { ctx.scale(60_000u64, 1_500_000) } else { ctx.scale(200_000u64, 5_000_000) };
+        let total = if weak { ctx.scale(50_000u64, 1_500_000) } else { ctx.scale(150_000u64, 5_000_000) };
         let n = ctx.share(total);
         let mut rng = ctx.rng(part);
         let maxp = ctx.scale(3, 5);
